@@ -40,7 +40,7 @@ func VerifC16Deleted(k int, mcap int, maxkb int) {
 		switch op {
 		case 1: // deliver
 			size := vrfSizes[vrf.Fork(vrf.Choose("size"+sfx, len(vrfSizes)))]
-			id, aerr := st.AddMessage(&vrfIn{mailbox: box, subject: "s" + sfx, src: make([]byte, size)})
+			id, aerr := st.AddMessage(&vrfIn{mailbox: box, subject: "s" + sfx, src: vrf.ZeroBytes(size)})
 			vrf.Assert("add-noerr", aerr == nil)
 			issued[box]++
 			ref.all = append(ref.all, vrfLimMsg{box: box, id: id, size: size})
@@ -89,10 +89,10 @@ func VerifC16Deleted(k int, mcap int, maxkb int) {
 			vrf.Assert("exactly-one-deleted-event-per-departure", n == 1)
 		}
 		if step < k {
-			vrf.Regroup(ref.shape(issued, names)*7 + len(gone)%7)
+			vrf.Regroup(ref.shape(issued, names)*7 + len(gone)%7 + 1000*vrfInternals(st, names))
 		}
 	}
-	vrf.Join()
+	// no Join here: the final states stay separate (their covers/assertions are grouped by label)
 	vrf.Cover("history-done")
 	vrf.CoverIf("something-left", len(gone) > 0)
 }
